@@ -36,8 +36,8 @@ PROPS = {
                 "panic recovery and a time-out; non-trivial = corrupted, multi-record or CRLF; distinct = distinct byte stream",
     },
     "C06": {
-        "extra_imports": ["Gofasta.Props.ColsClosest", "Gofasta.Props.Cli", "Gofasta.Lemmas.ClosestOrder"],
-        "extra_theorems": ["Gofasta.Props.Cols.closest_append", "Gofasta.Props.Cols.snp_col", "Gofasta.Props.Cols.raw_col", "Gofasta.Props.Cols.tn93_col", "Gofasta.Props.Cli.closest_defaults", "Gofasta.Props.Cli.wiring", "Gofasta.Lemmas.ClosestOrder.topK_spec_on", "Gofasta.Lemmas.ClosestOrder.hitLt_swoOn_nat", "Gofasta.Lemmas.ClosestOrder.hitLt_swoOn_rat",
+        "extra_imports": ["Gofasta.Lemmas.FanoutProofs", "Gofasta.Props.ColsClosest", "Gofasta.Props.Cli", "Gofasta.Lemmas.ClosestOrder"],
+        "extra_theorems": ["Gofasta.Lemmas.Fanout.fanout_result_eq", "Gofasta.Lemmas.Fanout.fanout_maximal_run", "Gofasta.Props.Cols.closest_append", "Gofasta.Props.Cols.snp_col", "Gofasta.Props.Cols.raw_col", "Gofasta.Props.Cols.tn93_col", "Gofasta.Props.Cli.closest_defaults", "Gofasta.Props.Cli.wiring", "Gofasta.Lemmas.ClosestOrder.topK_spec_on", "Gofasta.Lemmas.ClosestOrder.hitLt_swoOn_nat", "Gofasta.Lemmas.ClosestOrder.hitLt_swoOn_rat",
                            "Gofasta.Lemmas.ClosestOrder.closestN_exact", "Gofasta.Lemmas.ClosestOrder.closest_exact", "Gofasta.Lemmas.ClosestOrder.closestN_exact_characterised",
                            "Gofasta.Lemmas.ClosestOrder.closestN_exact_eq_spec", "Gofasta.Lemmas.ClosestOrder.hitLt_not_swo"],
         "cli": True,
@@ -194,10 +194,10 @@ PROPS = {
                 "encoding/csv + getAmbArr + Atoi (ok / error / panic)",
     },
     "C12": {
-        "extra_imports": ["Gofasta.Lemmas.SchedCommands", "Gofasta.Lemmas.AggVariants", "Gofasta.Props.Pipes", "Gofasta.Lemmas.SchedProofs", "Gofasta.Lemmas.SchedChainProofs"],
-        "extra_theorems": ["Gofasta.Lemmas.SchedCommands.text_writer_every_schedule", "Gofasta.Lemmas.SchedCommands.chain_text_writer_every_schedule", "Gofasta.Lemmas.SchedCommands.snps_every_schedule", "Gofasta.Lemmas.SchedCommands.snps_aggregate_every_schedule", "Gofasta.Lemmas.SchedCommands.updown_list_every_schedule", "Gofasta.Lemmas.SchedCommands.toma_every_schedule", "Gofasta.Lemmas.SchedCommands.variants_every_schedule", "Gofasta.Lemmas.SchedCommands.variants_aggregate_every_schedule", "Gofasta.Lemmas.SchedCommands.variants_aggregate_model_every_schedule", "Gofasta.Lemmas.SchedCommands.sam_variants_every_schedule", "Gofasta.Lemmas.SchedCommands.sam_variants_command_every_schedule", "Gofasta.Lemmas.SchedCommands.sam_variants_aggregate_every_schedule", "Gofasta.Lemmas.SchedCommands.sam_variants_every_schedule_rows", "Gofasta.Lemmas.SchedCommands.snps_maximal_run", "Gofasta.Lemmas.SchedCommands.snps_aggregate_maximal_run", "Gofasta.Lemmas.SchedCommands.updown_list_maximal_run", "Gofasta.Lemmas.SchedCommands.toma_maximal_run", "Gofasta.Lemmas.SchedCommands.variants_maximal_run", "Gofasta.Lemmas.SchedCommands.sam_variants_maximal_run", "Gofasta.Lemmas.SchedChain.reach_inv", "Gofasta.Lemmas.SchedChain.chain_success_means_complete", "Gofasta.Lemmas.SchedChain.chain_reorder_writer_in_order", "Gofasta.Lemmas.SchedChain.chain_commutative_writer", "Gofasta.Lemmas.SchedChain.chain_no_deadlock", "Gofasta.Lemmas.SchedChain.chain_terminates", "Gofasta.Lemmas.SchedChain.chain_maximal_run_returned", "Gofasta.Lemmas.SchedChain.chain_error_reported", "Gofasta.Lemmas.SchedChain.chain_maximal_run_error", "Gofasta.Lemmas.SchedChain.chain_error_has_source", "Gofasta.Lemmas.SchedChain.chain_no_spurious_error", "Gofasta.Lemmas.SchedChain.chain_maximal_run_success", "Gofasta.Lemmas.SchedChain.chain_no_panic", "Gofasta.Lemmas.SchedChain.chain_no_send_on_closed", "Gofasta.Lemmas.SchedChain.chain_no_sender_on_closed", "Gofasta.Lemmas.SchedChain.chain_buffers_bounded", "Gofasta.Lemmas.SchedChain.chain_closed_prefix", "Gofasta.Lemmas.SchedChain.runSchedule_returns", "Gofasta.Lemmas.SchedChain.OnePool.chain_one_pool_agrees", "Gofasta.Lemmas.SchedChain.OnePool.chain_one_pool_outcomes",
+        "extra_imports": ["Gofasta.Lemmas.FanoutProofs", "Gofasta.Lemmas.SchedCommands", "Gofasta.Lemmas.AggVariants", "Gofasta.Props.Pipes", "Gofasta.Lemmas.SchedProofs", "Gofasta.Lemmas.SchedChainProofs"],
+        "extra_theorems": ["Gofasta.Lemmas.Fanout.fanout_in_order", "Gofasta.Lemmas.Fanout.fanout_lockstep", "Gofasta.Lemmas.Fanout.fanout_slot", "Gofasta.Lemmas.Fanout.fanout_result", "Gofasta.Lemmas.Fanout.fanout_result_eq", "Gofasta.Lemmas.Fanout.fanout_no_deadlock", "Gofasta.Lemmas.Fanout.no_panic", "Gofasta.Lemmas.Fanout.buffer_bounded", "Gofasta.Lemmas.Fanout.fanout_terminates", "Gofasta.Lemmas.Fanout.fanout_maximal_run", "Gofasta.Lemmas.Fanout.runSchedule_returns", "Gofasta.Lemmas.Fanout.Demo.stepTwoForwarders_schedule_dependent", "Gofasta.Lemmas.SchedCommands.text_writer_every_schedule", "Gofasta.Lemmas.SchedCommands.chain_text_writer_every_schedule", "Gofasta.Lemmas.SchedCommands.snps_every_schedule", "Gofasta.Lemmas.SchedCommands.snps_aggregate_every_schedule", "Gofasta.Lemmas.SchedCommands.updown_list_every_schedule", "Gofasta.Lemmas.SchedCommands.toma_every_schedule", "Gofasta.Lemmas.SchedCommands.variants_every_schedule", "Gofasta.Lemmas.SchedCommands.variants_aggregate_every_schedule", "Gofasta.Lemmas.SchedCommands.variants_aggregate_model_every_schedule", "Gofasta.Lemmas.SchedCommands.sam_variants_every_schedule", "Gofasta.Lemmas.SchedCommands.sam_variants_command_every_schedule", "Gofasta.Lemmas.SchedCommands.sam_variants_aggregate_every_schedule", "Gofasta.Lemmas.SchedCommands.sam_variants_every_schedule_rows", "Gofasta.Lemmas.SchedCommands.snps_maximal_run", "Gofasta.Lemmas.SchedCommands.snps_aggregate_maximal_run", "Gofasta.Lemmas.SchedCommands.updown_list_maximal_run", "Gofasta.Lemmas.SchedCommands.toma_maximal_run", "Gofasta.Lemmas.SchedCommands.variants_maximal_run", "Gofasta.Lemmas.SchedCommands.sam_variants_maximal_run", "Gofasta.Lemmas.SchedChain.reach_inv", "Gofasta.Lemmas.SchedChain.chain_success_means_complete", "Gofasta.Lemmas.SchedChain.chain_reorder_writer_in_order", "Gofasta.Lemmas.SchedChain.chain_commutative_writer", "Gofasta.Lemmas.SchedChain.chain_no_deadlock", "Gofasta.Lemmas.SchedChain.chain_terminates", "Gofasta.Lemmas.SchedChain.chain_maximal_run_returned", "Gofasta.Lemmas.SchedChain.chain_error_reported", "Gofasta.Lemmas.SchedChain.chain_maximal_run_error", "Gofasta.Lemmas.SchedChain.chain_error_has_source", "Gofasta.Lemmas.SchedChain.chain_no_spurious_error", "Gofasta.Lemmas.SchedChain.chain_maximal_run_success", "Gofasta.Lemmas.SchedChain.chain_no_panic", "Gofasta.Lemmas.SchedChain.chain_no_send_on_closed", "Gofasta.Lemmas.SchedChain.chain_no_sender_on_closed", "Gofasta.Lemmas.SchedChain.chain_buffers_bounded", "Gofasta.Lemmas.SchedChain.chain_closed_prefix", "Gofasta.Lemmas.SchedChain.runSchedule_returns", "Gofasta.Lemmas.SchedChain.OnePool.chain_one_pool_agrees", "Gofasta.Lemmas.SchedChain.OnePool.chain_one_pool_outcomes",
                            "Gofasta.Lemmas.Sched.reach_inv", "Gofasta.Lemmas.Sched.success_means_complete", "Gofasta.Lemmas.Sched.reorder_writer_in_order", "Gofasta.Lemmas.Sched.commutative_writer", "Gofasta.Lemmas.Sched.counting_writer", "Gofasta.Lemmas.Sched.no_deadlock", "Gofasta.Lemmas.Sched.maximal_run_returned", "Gofasta.Lemmas.Sched.terminates", "Gofasta.Lemmas.Sched.run_length_le", "Gofasta.Lemmas.Sched.runSchedule_returns", "Gofasta.Lemmas.Sched.error_reported", "Gofasta.Lemmas.Sched.maximal_run_error", "Gofasta.Lemmas.Sched.error_has_source", "Gofasta.Lemmas.Sched.no_spurious_error", "Gofasta.Lemmas.Sched.maximal_run_success", "Gofasta.Lemmas.Sched.no_panic", "Gofasta.Lemmas.Sched.no_send_on_closed", "Gofasta.Lemmas.Sched.close_once", "Gofasta.Lemmas.Sched.buffers_bounded",
-                           "Gofasta.Props.Pipes.drivers_conform", "Gofasta.Props.Pipes.inner_error_arms", "Gofasta.Lemmas.AggVariants.variants_aggregate_model_deterministic", "Gofasta.Lemmas.AggVariants.variants_aggregate_any_order",
+                           "Gofasta.Props.Pipes.drivers_conform", "Gofasta.Props.Pipes.fanouts_conform", "Gofasta.Props.Pipes.inner_error_arms", "Gofasta.Lemmas.AggVariants.variants_aggregate_model_deterministic", "Gofasta.Lemmas.AggVariants.variants_aggregate_any_order",
                            "Gofasta.Lemmas.AggVariants.aggLt_not_swo", "Gofasta.Lemmas.AggVariants.tie_hypothesis_needed"],
         "streams": {"C12": (64, 400), "C12sched": (400, 4000)},
         "thorough_seeds": 3,
